@@ -18,7 +18,8 @@ from vlib.run import HarnessError, Result
 LEVEL = "fault_enumeration"
 RULE = (
     "a plan = NCP window K in 1..3, host sends / NCP sends / cancellations of a host caller at generated instants, and a "
-    "fate {deliver, drop, detectable corruption, duplicate, stall 3.5 s} for the n-th frame of each direction (random plans) "
+    "fate {deliver, drop, detectable corruption, duplicate, stall 3.5 s; towards the host also 'late duplicate': an ACK/NAK "
+    "delivered again after 1..6 later frames} for the n-th frame of each direction (random plans) "
     "or for the first d frames in global emission order (exhaustive part: all 5^d assignments, d = 4 quick / 6 thorough, for "
     "a fixed 2+2 payload workload, for each K); a third plan family aims faults only at transmissions of a cancelled payload; a fourth aims a fate at each of the five "
     "transmissions of one live payload (all 5^5 assignments enumerated, plus generated mixtures with lost ACK/NAK frames). "
@@ -29,6 +30,8 @@ ASSUMPTIONS = [
     "peer is vlib/refash.RefNcp, a conforming NCP written from UG101 (go-back-N, reject condition, 1.6 s fixed "
     "retransmit timeout, ERROR after 5 timeouts); RefNcp<->RefNcp self-test runs in the thorough tier",
     "corruption is always detectable (1..3 bit flips of the unstuffed frame)",
+    "the line is FIFO; the only reordering is the late duplicate of a control frame towards the host, at most 6 frames late "
+    "(less than the 8-frame numbering period, so a conforming receiver can still tell it is stale)",
 ]
 
 
@@ -250,13 +253,14 @@ def plans(draw):
     hi = 0
     for c in seq:
         t = round(t + draw(st.sampled_from(gaps)), 4)
-        ops.append([c, t, draw(st.integers(0, 10))])
+        # payload length: mostly short; sometimes up to the 128-byte data field a conforming peer accepts (incl. our 4-byte tag)
+        ops.append([c, t, draw(st.one_of(st.integers(0, 10), st.integers(0, 10), st.sampled_from([100, 120, 123, 124])))])
         if c == "h":
             if draw(st.integers(0, 5)) == 0:
                 ops.append(["c", hi, round(t + draw(st.sampled_from([0.0, 0.001, 0.0041, 0.3, 1.6, 1.6041, 2.5])), 4)])
             hi += 1
     fh = draw(st.lists(fate, max_size=25))
-    fn = draw(st.lists(fate, max_size=25))
+    fn = draw(st.lists(st.one_of(fate, fate, fate, st.integers(1, 6).map(lambda k: ["L", k])), max_size=25))
     return {"K": K, "ops": ops, "fh": fh, "fn": fn}
 
 
@@ -313,6 +317,21 @@ def _worker_budget_exh(ctx, job):
         ctx.check(plan, res, sample=(first == 1 and rest == (2, 1, 1)))
 
 
+def _worker_latedup(ctx, job):
+    """A duplicated ACK reaches the host k frames late while a later host frame is lost (first transmission)."""
+    K, a = job
+    for k in range(1, 5):
+        for d in range(0, 6):
+            for gap in (0.0, 0.01):
+                ops = [["h", round(i * gap, 4), 2] for i in range(6)] + [["n", 0.0007, 1]]
+                fn = [["d"]] * a + [["L", k]]
+                fh = [["d"]] * d + [["x"]]
+                plan = {"K": K, "ops": ops, "fh": fh, "fn": fn}
+                res = check(plan)
+                res.cls("late-duplicate-enumeration")
+                ctx.check(plan, res, sample=(a == 1 and k == 1 and d == 2))
+
+
 def _worker_budget(ctx, n):
     ctx.search(budget_plans(), check, max_examples=n)
 
@@ -359,3 +378,4 @@ def run(ctx):
     ctx.parallel(_worker_budget_exh, [(K, f) for K in (1, 2, 3) for f in range(5)])
     ctx.exhaustive["all 5^5 fate assignments to the five transmissions of one host payload, K=1..3"] = True
     ctx.parallel(_worker_budget, [120] * 16 if quick else [8000] * 16)
+    ctx.parallel(_worker_latedup, [(K, a) for K in (1, 2, 3) for a in range(0, 6)])
